@@ -95,8 +95,10 @@ class World:
         c = lw.Unitary(u2.copy()); c.herald(0, 0); c.loss(0, env.L[1])         # herald on another mode
         p = lw.Circuit(3); p.bs(0, reflectivity=self.par); p.bs(1); p.herald(0, 2, 1)  # herald in != out
         d = lw.Circuit(3); d.mode_swaps({0: 1, 1: 0}); d.herald(0, 2)     # a pure permutation: exact expected mappings
-        self.circ = {"a": a, "b": b, "c": c, "p": p, "d": d}
-        self.inputs = {"10": lw.State([1, 0]), "01": lw.State([0, 1]), "11": lw.State([1, 1])}
+        e = lw.Unitary(u1.copy()); e.herald(1, 2, 0)     # as b on the input side, the herald leaves on another mode
+        self.circ = {"a": a, "b": b, "c": c, "p": p, "d": d, "e": e}
+        # "bad": right length, invalid occupation - the assignment must be refused and change nothing
+        self.inputs = {"10": lw.State([1, 0]), "01": lw.State([0, 1]), "11": lw.State([1, 1]), "bad": lw.State([True, False])}
 
 
 def mk_source(kind, env):
@@ -119,8 +121,8 @@ DET_EFF = 0.75      # imperfect detection: sampling then also caches states outs
 
 # ---------------- Sampler
 def sampler_alphabet(env, tier):
-    a = [("circuit", k) for k in "abcp"] + [("param", v) for v in (env.R[1], env.L[1])] \
-        + [("input", k) for k in ("10", "01")] + [("source", k) for k in ("ideal", "dim", "ind")] \
+    a = [("circuit", k) for k in "abcpe"] + [("param", v) for v in (env.R[1], env.L[1])] \
+        + [("input", k) for k in ("10", "01", "bad")] + [("source", k) for k in ("ideal", "dim", "ind")] \
         + [("src_inplace", "brightness", 1.0), ("src_inplace", "brightness", env.R2),
            ("backend", "permanent"), ("backend", "slos"), ("read",), ("draw",),
            ("det", 1, True), ("det_inplace", "photon_counting", False), ("det_inplace", "efficiency", DET_EFF),
@@ -197,8 +199,8 @@ def sampler_config(s):
 
 # ---------------- QuickSampler
 def quick_alphabet(env, tier):
-    a = [("circuit", k) for k in "abcp"] + [("param", v) for v in (env.R[1], env.L[1])] \
-        + [("input", k) for k in ("10", "01", "11")] + [("ps", k) for k in ("none", "r0", "r1", "rX")] \
+    a = [("circuit", k) for k in "abcpe"] + [("param", v) for v in (env.R[1], env.L[1])] \
+        + [("input", k) for k in ("10", "01", "11", "bad")] + [("ps", k) for k in ("none", "r0", "r1", "rX")] \
         + [("pc", True), ("pc", False), ("read",), ("draw",), ("ps_inplace",)]
     if tier == "thorough":
         a += [("edit", "bs"), ("edit", "herald")]
